@@ -3,11 +3,11 @@ CONSTANTS
   IdxMod = 4
   ZeroAddr = 0
   QN = 2
-  QIndirect = FALSE
-  QEventIdx = TRUE
-  MaxBufs = 1
-  Adversary = FALSE
-  WithNotify = TRUE
+  QIndirect = TRUE
+  QEventIdx = FALSE
+  MaxBufs = 3
+  Adversary = TRUE
+  WithNotify = FALSE
   Bug = "none"
 INVARIANTS
   TypeOK
@@ -23,7 +23,6 @@ INVARIANTS
   ImplAgrees
   ImplNotifyOk
   FreeListExact
-  DevHeldDescribed
 PROPERTIES
   C02_IdxMonotone
 CHECK_DEADLOCK FALSE
